@@ -38,17 +38,28 @@ pub unsafe fn realloc_is_out_of_bound(_ptr: std::ptr::NonNull<u8>, _layout: std:
    panic!("capacity of the table model exceeded (a Vec grew beyond its allocated capacity)")
 }
 
-/// `Vec::append` as an element-wise move loop (same result, same order).  The real one is a
-/// single `memcpy` of symbolic length, which CBMC encodes with its array theory; every later
-/// read of the destination then costs quadratically many constraints (measured: > 14 GB).
-pub fn vec_append<T, A: std::alloc::Allocator>(this: &mut Vec<T, A>, other: &mut Vec<T, A>) {
-   let n = other.len();
-   unsafe {
-      other.set_len(0);
-      let mut i = 0;
-      while i < n {
-         this.push(std::ptr::read(other.as_ptr().add(i)));
-         i += 1;
-      }
+/// Heap blocks come in four constant sizes.  A request of symbolic size (the first `push` on an
+/// empty `Vec` computes its capacity from a field CBMC does not know to be constant) would
+/// otherwise create an object of symbolic size, which CBMC handles with its array theory at a
+/// cost quadratic in the number of accesses (measured: two `UnionFind` operations exhaust
+/// 14 GB).  Handing out a larger block than requested is unobservable; a request beyond the
+/// largest class fails the harness as "bound too small".
+pub unsafe fn alloc_size_classes(layout: std::alloc::Layout) -> *mut u8 {
+   use std::alloc::{alloc_zeroed, Layout};
+   let (size, align) = (layout.size(), layout.align());
+   if size <= 8 {
+      alloc_zeroed(Layout::from_size_align_unchecked(8, align))
+   } else if size <= 32 {
+      alloc_zeroed(Layout::from_size_align_unchecked(32, align))
+   } else if size <= 128 {
+      alloc_zeroed(Layout::from_size_align_unchecked(128, align))
+   } else if size <= 512 {
+      alloc_zeroed(Layout::from_size_align_unchecked(512, align))
+   } else {
+      panic!("capacity of the table model exceeded (heap block larger than 512 bytes requested)")
    }
 }
+
+/// Blocks are never returned (nothing observes that; use-after-free is outside every property
+/// here).  Needed because the size recorded for a block is its size class, not the requested size.
+pub unsafe fn dealloc_noop(_ptr: std::ptr::NonNull<u8>, _layout: std::alloc::Layout) {}
